@@ -85,8 +85,7 @@ class ConvP(_Base):
             if not op.results:
                 return ["for", lb, ub, st, iv, self.block(op.body.block)]
             # a loop that ALREADY carries state values (pre-existing threading)
-            from snaxc.inference.helpers import find_all_acc_names_in_region
-            inside = find_all_acc_names_in_region(op.body)
+            inside = {o.accelerator.data for o in op.body.walk() if isinstance(o, self.accfg.SetupOp)}
             accs = [r.type.accelerator.data for r in op.results]
             if len(set(accs)) != len(accs):
                 raise Unsupported("pre-threaded scf.for carrying two states of one accelerator")
@@ -140,7 +139,8 @@ class ConvL(_Base):
         awaits / launches / pure ops / annotated calls / setups of OTHER accelerators in between (computed on the real IR,
         independently of the model's bookkeeping)"""
         accfg = self.accfg
-        from snaxc.inference.helpers import has_accfg_effects
+        def effects(o):  # from the IR alone: an unannotated call anywhere inside
+            return any(isinstance(x, func.CallOp) and ac.call_has_effects(x) for x in o.walk())
         sv = op.state
         o = op.prev_op
         while o is not None:
@@ -149,7 +149,7 @@ class ConvL(_Base):
                     return True
                 if o.accelerator.data == op.accelerator.data:
                     return False
-            elif isinstance(o, (scf.IfOp, scf.ForOp)) or has_accfg_effects(o):
+            elif isinstance(o, (scf.IfOp, scf.ForOp)) or effects(o):
                 return False
             o = o.prev_op
         return False
